@@ -195,6 +195,11 @@ impl Actor for ClusterActor {
             swarm.listen_on(addr)?;
         }
 
+        #[cfg(feature = "verif-hooks")]
+        for addr in verif::dial_addrs() {
+            let _ = swarm.dial(addr);
+        }
+
         let confirmation_actor = ConfirmationActor::new(
             database.clone(),
             replication_factor,
